@@ -54,7 +54,93 @@ def main():
     # 3. no thread outlives a case
     import threading
     assert threading.active_count() <= 2, threading.enumerate()
+    ref_vectors()
     print('selftest ok')
+
+
+def ref_vectors():
+    """the reference codec reproduces the literal frames the maintainers wrote into the pinned tests (test_ecu.py, test_ca.py,
+    test_memory_access.py); decoder o encoder is the identity on random messages"""
+    import random
+    from ref import codec as C
+    from ref import sniffer as SN
+    from vt.bus import Frame
+    pay = bytes([1, 2, 3, 4, 5, 6, 7] * 2 + [1, 2, 3, 4, 5, 6])
+    # test_ecu.py: peer to peer receive long
+    assert C.make_id(0, 0, 0xEC, 0x02, 0x01) == 0x00EC0201
+    assert C.tpcm_rts(20, 1, 0xFEB0) == bytes([16, 20, 0, 3, 1, 176, 254, 0])
+    assert C.make_id(7, 0, 0xEC, 0x01, 0x02) == 0x1CEC0102
+    assert C.tpcm_cts(1, 1, 0xFEB0) == bytes([17, 1, 1, 255, 255, 176, 254, 0])
+    assert C.tpcm_cts(1, 3, 0xFEB0) == bytes([17, 1, 3, 255, 255, 176, 254, 0])
+    assert C.tp_dt(1, pay[0:7]) == bytes([1, 1, 2, 3, 4, 5, 6, 7])
+    assert C.tp_dt(3, pay[14:20]) == bytes([3, 1, 2, 3, 4, 5, 6, 255])
+    assert C.tpcm_eom(20, 3, 0xFEB0) == bytes([19, 20, 0, 3, 255, 176, 254, 0])
+    # test_ecu.py: broadcast / peer to peer send long
+    assert C.make_id(6, 0, 0xEC, 0xFF, 0x90) == 0x18ECFF90 and C.tpcm_bam(20, 0xFEB0) == bytes([32, 20, 0, 3, 255, 176, 254, 0])
+    assert C.make_id(6, 0, 0xEC, 0x9B, 0x90) == 0x18EC9B90 and C.tpcm_rts(20, 1, 0xDF00) == bytes([16, 20, 0, 3, 1, 0, 223, 0])
+    assert C.make_id(7, 0, 0xEB, 0x9B, 0x90) == 0x1CEB9B90
+    f = C.split_id(0x18F09B90)
+    assert (f['prio'], f['pgn'], f['sa'], f['pdu1']) == (6, 0xF09B, 0x90, False)
+    f = C.split_id(0x00DC0201)
+    assert (f['pgn'], f['da'], f['sa'], f['pdu1']) == (56320, 2, 1, True)
+    # test_ca.py: NAME of the generic address claim test and its address-claimed frame
+    nv = C.name_value(arbitrary_address_capable=0, industry_group=5, vehicle_system_instance=2, vehicle_system=127, function=201, function_instance=16,
+                      ecu_instance=2, manufacturer_code=666, identity_number=1234567)
+    assert C.name_bytes(nv) == bytes([135, 214, 82, 83, 130, 201, 254, 82]), C.name_bytes(nv)
+    assert C.name_bytes(nv | (1 << 63)) == bytes([135, 214, 82, 83, 130, 201, 254, 210])
+    assert C.make_id(6, 0, 0xEE, 0xFF, 0x80) == 0x18EEFF80 and C.make_id(6, 0, 0xEE, 0xFF, 0xFE) == 0x18EEFFFE
+    assert C.un_le(bytes([135, 214, 82, 83, 130, 111, 254, 82])) < nv < C.un_le(bytes([135, 214, 82, 83, 130, 222, 254, 82]))
+    # test_memory_access.py: DM14 / DM15 / DM16 vectors
+    assert C.make_id(6, 0, 0xD9, 0xD4, 0xF9) == 0x18D9D4F9
+    assert C.dm14(1, 1, C.DM14_READ, 0x92000003, 7) == bytes([0x01, 0x13, 0x03, 0x00, 0x00, 0x92, 0x07, 0x00])
+    assert C.dm14(1, 1, C.DM14_READ, 0x92000003, 0x5AA5) == bytes([0x01, 0x13, 0x03, 0x00, 0x00, 0x92, 0xA5, 0x5A])
+    assert C.dm14(1, 1, C.DM14_WRITE, 0x91000007, 7) == bytes([0x01, 0x15, 0x07, 0x00, 0x00, 0x91, 0x07, 0x00])
+    assert C.dm14(1, 1, C.DM14_COMPLETED, 0x92000003, 0xFFFF) == bytes([0x01, 0x19, 0x03, 0x00, 0x00, 0x92, 0xFF, 0xFF])
+    m = C.parse_dm15(bytes([0x00, 0x11, 0xFF, 0xFF, 0xFF, 0xFF, 0x5A, 0xA5]))
+    assert (m['status'], m['seed']) == (C.DM15_PROCEED, 0xA55A)
+    m = C.parse_dm15(bytes([0x00, 0x1B, 0x02, 0x00, 0x00, 0x07, 0xFF, 0xFF]))
+    assert (m['status'], m['error'], m['edcp']) == (C.DM15_FAILED, 2, 7)
+    assert C.dm15(0, C.DM15_FAILED, 2, 7, 0xFFFF, pointer_type=1) == bytes([0x00, 0x1B, 0x02, 0x00, 0x00, 0x07, 0xFF, 0xFF])
+    assert C.parse_dm15(bytes([0x00, 0x19, 0xFF, 0xFF, 0xFF, 0xFF, 0xFF, 0xFF]))['status'] == C.DM15_COMPLETED
+    assert C.dm16(bytes([0x44, 0x33, 0x22, 0x11])) == bytes([0x04, 0x44, 0x33, 0x22, 0x11])
+    # decoder o encoder = identity: random messages through encoder -> sniffer
+    rng = random.Random(5)
+    for layer in ('j1939-21', 'j1939-22'):
+        fd = layer == 'j1939-22'
+        for _ in range(60):
+            size = rng.randint(61, 900) if fd else rng.randint(9, 400)
+            data = bytes(rng.randrange(256) for _ in range(size))
+            pgn = rng.choice([0xD000, 0x1C900, 0xFEF6])
+            sa, da, ses = rng.randrange(254), rng.randrange(254), rng.randrange(16)
+            frames = []
+            unit = 60 if fd else 7
+            n = (size + unit - 1) // unit
+            def fr(pf, ps, s, d):
+                frames.append(Frame(len(frames), len(frames) * 0.001, 'X' if s == sa else 'Y', C.make_id(7, 0, pf, ps, s), d, fd))
+            if fd:
+                fr(C.PF_FD_TP_CM, da, sa, C.fdcm_rts(ses, size, 255, pgn))
+                fr(C.PF_FD_TP_CM, sa, da, C.fdcm_cts(ses, 1, n, pgn))
+                for k in range(n):
+                    fr(C.PF_FD_TP_DT, da, sa, C.fd_dt(ses, k + 1, data[k * 60:(k + 1) * 60]))
+                fr(C.PF_FD_TP_CM, da, sa, C.fdcm_eoms(ses, size, pgn))
+                fr(C.PF_FD_TP_CM, sa, da, C.fdcm_eoma(ses, size, pgn))
+            else:
+                fr(C.PF_TP_CM, da, sa, C.tpcm_rts(size, 255, pgn))
+                fr(C.PF_TP_CM, sa, da, C.tpcm_cts(n, 1, pgn))
+                for k in range(n):
+                    fr(C.PF_TP_DT, da, sa, C.tp_dt(k + 1, data[k * 7:(k + 1) * 7]))
+                fr(C.PF_TP_CM, sa, da, C.tpcm_eom(size, n, pgn))
+            sn = SN.sniff(layer, frames)
+            assert not sn.problems, sn.problems[:3]
+            assert len(sn.sessions) == 1 and sn.sessions[0].status == 'complete' and sn.sessions[0].payload() == data
+    # Multi-PG and DTC round trips
+    for _ in range(200):
+        cpgs = [(rng.randrange(1 << 18), bytes(rng.randrange(256) for _ in range(rng.randint(1, 12)))) for _ in range(rng.randint(1, 3))]
+        g, pr = C.parse_mpg(C.mpg_frame(cpgs))
+        assert not pr and [(x[2], x[3]) for x in g] == cpgs
+        spn, fmi, oc = rng.randrange(1 << 19), rng.randrange(32), rng.randrange(128)
+        d = C.parse_dtc(C.dtc_bytes(spn, fmi, oc))
+        assert (d['spn'], d['fmi'], d['oc'], d['cm']) == (spn, fmi, oc, 0)
 
 if __name__ == '__main__':
     main()
